@@ -6,10 +6,11 @@ VERIF = os.path.dirname(HERE)
 sys.path.insert(0, HERE); sys.path.insert(0, os.path.join(HERE, "props"))
 ALL = ["C%02d" % i for i in range(1, 21)]
 checks, na, engines_props = [], [], []
+CLAIMED = set(open(os.path.join(HERE, "claimed.txt")).read().split())
 for pid in ALL:
     path = os.path.join(HERE, "props", pid.lower() + ".py")
     meta = None
-    if os.path.exists(path):
+    if pid in CLAIMED and os.path.exists(path):
         mod = importlib.import_module(pid.lower())
         meta = getattr(mod, "META", None)
     if not meta:
